@@ -12,7 +12,7 @@ package vss
 // a_0 + sum_{k>=1} a_k * x^k mod q, see /verif/prelude/prelude.smt2.
 
 //@ func CheckIndexes
-//@   props C15 C06
+//@   props C15 C06 C03
 //@   requires okCurve(ec) && (forall k in 0..len(indexes) :: indexes[k] != nil)
 //@   ensures [C15.refuse-zero-id] result1 == nil ==> (forall k in 0..len(indexes) :: val(indexes[k]) % curveN(ec) != 0)
 //@   ensures [C15.refuse-duplicate-ids] result1 == nil ==> (forall a, b in 0..len(indexes) :: (a < b ==> val(indexes[a]) % curveN(ec) != val(indexes[b]) % curveN(ec)))
